@@ -118,13 +118,17 @@ def build_http_request(
         headers[b'Content-Type'] = content_type
     has_transfer_encoding = False
     has_user_agent = False
+    content_length = b'Content-Length'
     for k, _ in headers.items():
         if k.lower() == b'transfer-encoding':
             has_transfer_encoding = True
         elif k.lower() == b'user-agent':
             has_user_agent = True
+        elif k.lower() == b'content-length':
+            # Update the header as spelled by the caller, never add a 2nd one
+            content_length = k
     if body and not has_transfer_encoding:
-        headers[b'Content-Length'] = bytes_(len(body))
+        headers[content_length] = bytes_(len(body))
     if not has_user_agent and not no_ua:
         headers[b'User-Agent'] = PROXY_AGENT_HEADER_VALUE
     return build_http_pkt(
@@ -150,12 +154,16 @@ def build_http_response(
         line.append(reason)
     headers = headers or {}
     has_transfer_encoding = False
+    content_length = b'Content-Length'
     for k, _ in headers.items():
         if k.lower() == b'transfer-encoding':
             has_transfer_encoding = True
             break
+        if k.lower() == b'content-length':
+            # Update the header as spelled by the caller, never add a 2nd one
+            content_length = k
     if not has_transfer_encoding and not no_cl:
-        headers[b'Content-Length'] = bytes_(len(body)) if body else b'0'
+        headers[content_length] = bytes_(len(body)) if body else b'0'
     return build_http_pkt(line, headers, body, conn_close)
 
 
